@@ -15,7 +15,7 @@ EXTENDS MiniDyn, Json
 SX == INSTANCE SequencesExt
 SetToSeq(S) == SX!SetToSeq(S)
 
-CONSTANTS Setup, OpMenu, Bound(_), Allowed(_,_)
+CONSTANTS Setup, OpMenu, Bound(_), Allowed(_,_), LastClassInView
 
 VARIABLES db, path
 gvars == <<db, path>>
@@ -35,7 +35,13 @@ GNext == \E i \in DOMAIN OpMenu : \E oc \in Plan(db, OpMenu[i]).ocs :
 GSpec == GInit /\ [][GNext]_gvars
 
 Emit == PrintT(ToJson([kind |-> "edge", path |-> path, op |-> path'[Len(path')], ro |-> (db' = db)]))
-View == db
+\* Two implementation states may hide behind one specification state (stale internal bookkeeping after a clear, a delete,
+\* an index operation ...).  With LastClassInView, TLC distinguishes states by the coarse class of the operation that led to
+\* them, so every (state, operation) edge is also generated right after a clear, right after a delete, etc.
+ClassOf(e) == CASE e.op = "ClearTable" -> "clear" [] e.op = "DeleteItem" -> "delete" [] e.op \in {"AddIndex", "DeleteIndex"} -> "index"
+                [] e.op = "UpdateItem" -> "update" [] e.op = "PutItem" -> "put" [] e.op \in {"DeleteTable", "AddTable", "CreateTable"} -> "table"
+                [] e.op = "Fail" -> "fail" [] OTHER -> "other"
+View == IF LastClassInView THEN <<db, IF path = <<>> THEN "none" ELSE ClassOf(OpMenu[path[Len(path)]])>> ELSE <<db, "-">>
 
 LastOp == OpMenu[path[Len(path)]]
 AnyOp(d, e) == TRUE
